@@ -50,7 +50,7 @@ CHECKS = {
                      "never below the exact law, monotone, within one class.",
                 note="The stored edge (k/n)*L_max is the reference edge; number_of_bins=1 fails at construction and is counted only.",
                 ref="3 C07"),
-    "C08": dict(cat="exploration", tech="exhaustive lattice enumeration of curve parameters x scatter x probabilities x loads/cycles (incl. every transformed knee) against a plain log-normal reference",
+    "C08": dict(cat="exploration", tech="exhaustive lattice enumeration of curve parameters x scatter x probabilities x loads/cycles (incl. every transformed knee) against a plain log-normal reference; exhaustive search of all call sequences (26 operations, depth 3 / 4) on a kept curve object and the objects derived from it",
                 text="Every curve of the lattice k_1 x k_2 (incl. inf, absent) x SD x ND x scatter (absent, TN only, TS only, both) x native P x target P is probed at loads and "
                      "cycles placed relative to SD/ND and to every *transformed* knee (x{0.2..10}, 1 -+ 1e-12): inverse pairs, monotony, knee continuity, slopes, Miner variants and "
                      "non-destructiveness, quantile ratios TN/TS, all 25 compositions of the probability transform, scatter conversions, broadcast = element-wise scalar.",
@@ -97,19 +97,19 @@ CHECKS = {
                      "(2-D: ^4) x source/target binning pairs for rebin (conservation, identity, composition) and combine (grand total).",
                 note="A row of a collective counts as one cycle for histogramming (interpretation fixed in DESIGN); numpy's edge convention is the reference.",
                 ref="3 C14"),
-    "C15": dict(cat="exploration", tech="exhaustive lattice enumeration of (strength median/scatter, load scatter, z) scan lines against the closed-form normal overlap",
+    "C15": dict(cat="exploration", tech="exhaustive lattice enumeration of (strength median/scatter, load scatter, z) scan lines against the closed-form normal overlap; exhaustive search of all question sequences (20 operations, depth 3 / 4) on two kept objects",
                 text="Every point of medians x strength std x load std (ratios up to 200, thorough 3000) x z in [-7, 7] is evaluated by pf_norm_load along two scan lines "
                      "(load median / strength median varying) and compared with Phi(z) (|p - Phi| <= 1e-9 + 1e-4 min(Phi, 1-Phi)), with bounds, both monotony clauses, "
                      "pf_simple_load, the vanishing-scatter ladder and the sampled-density ladder of pf_arbitrary_load.",
                 note="Arbitrary-load rungs judged only where the coarser grid resolves the strength std; explicit integration limits not exercised.",
                 ref="3 C15"),
-    "C16": dict(cat="exploration", tech="exhaustive lattice enumeration of parameters x stress/strain states for closed-form material laws against plain references",
+    "C16": dict(cat="exploration", tech="exhaustive lattice enumeration of parameters x stress/strain states for closed-form material laws against plain references; exhaustive search of all call sequences (27 operations incl. caller actions, depth 4) on kept objects and argument buffers",
                 text="Ramberg-Osgood over E x K x n (0.05..0.95) x stresses up to 2K and strains up to 1, scalar and array: inverse pairs, oddness, monotonicity, compliance vs "
                      "central differences, Masing doubling, lower branch at the reversal; Hooke 1D/2D/3D over E x nu x all states in {-1,0,2}^k: identities and plane reductions; "
                      "true stress/strain inverses.",
                 note="Lattice only; beyond |strain| <= 1 counted, not judged.",
                 ref="3 C16"),
-    "C17": dict(cat="exploration", tech="exhaustive enumeration of the integer tensor lattice x the 24 cube rotations x scales against an independent Jacobi eigen-solver",
+    "C17": dict(cat="exploration", tech="exhaustive enumeration of the integer tensor lattice x the 24 cube rotations x scales against an independent Jacobi eigen-solver; exhaustive search of all call sequences (34 operations, depth 3 / 4) on a kept frame, kept accessor and kept component arrays",
                 text="All 15 625 symmetric tensors with components in {-2..2} (thorough: also {-3..3}) x 24 exact cube rotations + rational rotations x exact and inexact "
                      "scales are evaluated by every equivalent-stress function (scalar, column, accessor) and compared with the definitions from eigenvalues of an "
                      "own Jacobi solver (cross-checked with eigvalsh and the characteristic polynomial); inequalities, signed variants and the +1 convention included.",
